@@ -30,20 +30,22 @@ static u128 magnitude(int i)
 #define N_MAG (34 + 16)
 static const char *MALFORMED[] = { "", "-", "+", "0x", "0X", "x1", "1x", " 1", "1 ", "--1", "+-1", "-+1", "1.0", "0x1G", "0x-1", "1e3", "0b1", "'1'", "0x 1", "1\t" };
 #define N_MAL 20
-#define PER_TS (N_MAG * 9 + N_MAL)
+#define ZF 21          /* 3 sign forms x 7 leading-zero counts */
+static const int ZEROS[7] = { 0, 1, 25, 236, 255, 256, 300 };       /* digit counters must not wrap: total digit counts around 2^8 */
+#define PER_TS (N_MAG * ZF + N_MAL)
 
 static size_t numeral(char *o, int type, int item)
 {
-        if (item >= N_MAG * 9) { strcpy(o, MALFORMED[item - N_MAG * 9]); return strlen(o); }
-        u128 m = magnitude(item / 9); int form = item % 9, sign = form % 3, zeros = form / 3;
+        if (item >= N_MAG * ZF) { strcpy(o, MALFORMED[item - N_MAG * ZF]); return strlen(o); }
+        u128 m = magnitude(item / ZF); int form = item % ZF, sign = form % 3, zeros = ZEROS[form / 3];
         char *p = o;
         if (type == CAT_VAR_NUM_HEX) {
                 *p++ = '0'; *p++ = (sign == 1) ? 'X' : 'x';
-                for (int z = 0; z < (zeros == 1 ? 1 : zeros == 2 ? 25 : 0); z++) *p++ = '0';
+                for (int z = 0; z < zeros; z++) *p++ = '0';
                 p += u128_hex(m, p, sign == 2);
         } else {
                 if (sign == 1) *p++ = '-'; else if (sign == 2) *p++ = '+';
-                for (int z = 0; z < (zeros == 1 ? 1 : zeros == 2 ? 25 : 0); z++) *p++ = '0';
+                for (int z = 0; z < zeros; z++) *p++ = '0';
                 p += u128_dec(m, p);
         }
         *p = 0;
@@ -59,21 +61,21 @@ static size_t valid_arg(char *o, int type, size_t size)
         default: { size_t L = rn((unsigned)size), k = 0; o[k++] = '"'; for (size_t i = 0; i < L; i++) o[k++] = (char)('a' + rn(26)); o[k++] = '"'; o[k] = 0; return k; }
         }
 }
-static const size_t WIDTHS[5] = { 1, 2, 4, 3, 8 };
+static const size_t WIDTHS[9] = { 1, 2, 4, 3, 8, 257, 258, 260, 65540 };     /* supported, unsupported, and unsupported widths whose low byte / low 16 bits look supported */
+#define NW 9
 
 static void sweep_case(long item)
 {
         int num = (int)(item % PER_TS); item /= PER_TS;
         int type = (int)(item % 3); item /= 3;
-        int wi = (int)(item % 5); item /= 5;
+        int wi = (int)(item % NW); item /= NW;
         int pos = (int)item;           /* 0..3 */
         int nv = pos + 1 + (int)rn(4 - (unsigned)pos);
         for (int j = 0; j < nv; j++) {
                 AF[j].type = (j == pos) ? type : (int)rn(5); AF[j].access = chance(80) ? CAT_VAR_ACCESS_READ_WRITE : CAT_VAR_ACCESS_WRITE_ONLY; AF[j].no_callback = chance(30);
                 AF[j].size = (j == pos) ? WIDTHS[wi] : (AF[j].type <= CAT_VAR_NUM_HEX ? WIDTHS[rn(3)] : 1 + rn(8));
         }
-        struct cat_command *c = args_world(nv, chance(70), chance(30), chance(50));
-        uint8_t args[1400]; size_t n = 0; char f[200];
+        uint8_t args[1400]; size_t n = 0; char f[500];
         int nargs = pos + 1 + (chance(60) ? (int)rn((unsigned)(nv - pos)) : 0);
         for (int a = 0; a < nargs; a++) {
                 if (a) args[n++] = ',';
@@ -81,9 +83,11 @@ static void sweep_case(long item)
                 memcpy(args + n, f, fn); n += fn;
         }
         snprintf(ARG_NOTE, sizeof ARG_NOTE, "sweep: numeral #%d for type %d width %zu at argument position %d of %d", num, type, WIDTHS[wi], pos + 1, nargs);
+        ARG_CAP_HINT = chance(30) ? n + 1 + rn(3) : 0;          /* a third of the lines on a command capacity that just holds the arguments */
+        struct cat_command *c = args_world(nv, chance(70), chance(30), chance(50));
         args_run_and_judge(c, args, n, "C04");
         nontrivial(hash_bytes(args, n, hash_u64((uint64_t)(type * 64 + wi * 8 + pos), 4)));
-        DSET("type_width_position_class", (uint64_t)(((type * 5 + wi) * 4 + pos) * 64 + num / 9 + 1));
+        DSET("type_width_position_class", (uint64_t)(((type * NW + wi) * 4 + pos) * 64 + num / ZF + 1));
 }
 
 static size_t random_numeral(char *o, int type)
@@ -96,7 +100,7 @@ static size_t random_numeral(char *o, int type)
                 if (chance(3)) *p++ = 'g';
         } else {
                 if (type == CAT_VAR_INT_DEC) { unsigned r = rn(10); if (r < 4) *p++ = '-'; else if (r < 5) *p++ = '+'; } else if (chance(3)) *p++ = chance(50) ? '+' : '-';
-                unsigned z = chance(20) ? rn(30) : 0; for (unsigned i = 0; i < z; i++) *p++ = '0';
+                unsigned z = chance(20) ? rn(30) : chance(4) ? 200 + rn(120) : 0; for (unsigned i = 0; i < z; i++) *p++ = '0';
                 if (chance(96)) {
                         if (chance(8)) { unsigned nd = 20 + rn(50); for (unsigned i = 0; i < nd; i++) *p++ = (char)('0' + rn(10)); }       /* up to 70 digits */
                         else { u128 v = chance(60) ? magnitude((int)rn(N_MAG)) + rn(3) - 1 : (u128)(rnd() >> rn(64)); if (chance(10)) v += ((u128)(1 + rn(20))) << 64; p += u128_dec(v, p); }
@@ -113,14 +117,13 @@ static void random_case(void)
         for (int j = 0; j < nv; j++) {
                 AF[j].type = chance(75) ? (int)rn(3) : (int)rn(5);
                 unsigned a = rn(20); AF[j].access = a < 15 ? CAT_VAR_ACCESS_READ_WRITE : a < 18 ? CAT_VAR_ACCESS_WRITE_ONLY : CAT_VAR_ACCESS_READ_ONLY;
-                AF[j].size = AF[j].type <= CAT_VAR_NUM_HEX ? WIDTHS[rn(chance(85) ? 3 : 5)] : 1 + rn(chance(20) ? 64 : 6);
+                AF[j].size = AF[j].type <= CAT_VAR_NUM_HEX ? WIDTHS[rn(chance(85) ? 3 : NW)] : 1 + rn(chance(20) ? 64 : 6);
                 AF[j].no_callback = AF[j].access == CAT_VAR_ACCESS_READ_ONLY || chance(30);
         }
-        struct cat_command *c = args_world(nv, chance(70), chance(30), chance(50));
-        uint8_t args[1500]; size_t n = 0; char f[300];
+        uint8_t args[2400]; size_t n = 0; char f[600];
         unsigned nargs = chance(70) ? (unsigned)nv : rn((unsigned)nv + 2);
         if (nargs == 0 && chance(50)) nargs = 1;
-        for (unsigned a = 0; a < nargs; a++) {
+        for (unsigned a = 0; a < nargs && n < 1500; a++) {
                 if (a) args[n++] = ',';
                 int type = a < (unsigned)nv ? AF[a].type : (int)rn(5); size_t sz = a < (unsigned)nv ? AF[a].size : 4;
                 size_t fn = type <= CAT_VAR_NUM_HEX ? (chance(3) ? 0 : random_numeral(f, type)) : valid_arg(f, type, sz);
@@ -128,6 +131,8 @@ static void random_case(void)
         }
         if (chance(3)) args[n++] = ',';
         snprintf(ARG_NOTE, sizeof ARG_NOTE, "random: %d variable(s), %u argument(s)", nv, nargs);
+        ARG_CAP_HINT = chance(30) ? n + 1 + rn(3) : 0;          /* a third of the lines on a command capacity that just holds the arguments */
+        struct cat_command *c = args_world(nv, chance(70), chance(30), chance(50));
         args_run_and_judge(c, args, n, "C04");
         uint64_t h = hash_bytes(args, n, 40); for (int j = 0; j < nv; j++) h = hash_u64((uint64_t)(AF[j].type * 100 + (int)AF[j].size), h);
         nontrivial(h);
@@ -137,10 +142,10 @@ static void random_case(void)
 
 struct case_budget chk_budget(const char *tier)
 {
-        struct case_budget b = { (long)PER_TS * 3 * 5 * 4, strcmp(tier, "thorough") == 0 ? 30000000 : 600000 };
+        struct case_budget b = { (long)PER_TS * 3 * NW * 4, strcmp(tier, "thorough") == 0 ? 30000000 : 600000 };
         return b;
 }
-void chk_run_case(uint64_t seed, long c, bool is_sweep) { (void)seed; ARG_NOTE[0] = 0; if (is_sweep) sweep_case(c); else random_case(); }
+void chk_run_case(uint64_t seed, long c, bool is_sweep) { (void)seed; ARG_NOTE[0] = 0; ARG_CAP_HINT = 0; if (is_sweep) sweep_case(c); else random_case(); }
 
 /* --oracle-selftest: read "type size text" lines, print "1 <value as unsigned little-endian integer>" or "0" */
 static int oracle_selftest(void)
